@@ -558,6 +558,20 @@ def run_property(pid, mod, tier, seed):
     if only:
         qs = [q for q in qs if re.search(only, q.name)]
     assert len(set(q.name for q in qs)) == len(qs), "duplicate query names"
+    # a thorough tier with a very large population of shapes runs every shape of the quick tier plus a fixed, evenly strided sample of the others
+    # (the sample is fixed so that what is registered is what was run on the unchanged tree)
+    population = len(qs)
+    tmax = int(os.environ.get("VERIF_THOROUGH_MAX", "0") or 0) or getattr(mod, "THOROUGH_MAX", 0)
+    if tier == "thorough" and tmax and len(qs) > tmax and not only:
+        quick_names = set(q.name for q in mod.queries("quick"))
+        keep = [q for q in qs if q.name in quick_names]
+        rest = [q for q in qs if q.name not in quick_names]
+        k = max(0, tmax - len(keep))
+        picked = [rest[(i * len(rest)) // k] for i in range(k)] if k and rest else []
+        chosen = set(q.name for q in keep) | set(q.name for q in picked)
+        qs = [q for q in qs if q.name in chosen]
+        mod.META = dict(mod.META, bounds=mod.META["bounds"] + f" [thorough tier as registered: {len(qs)} of the {population} generated shapes -- all shapes of the quick tier plus an "
+                        f"evenly strided, fixed sample of the others; VERIF_THOROUGH_MAX=<n> widens it]")
     # prelude + shared repo TUs first (parallel)
     if not build_prelude(bcdir):
         return 3
